@@ -25,7 +25,7 @@ ASSUMPTIONS = ['population standard deviation (ddof=0) and linear-interpolation 
 CHUNK = 1
 
 STATS = ('mean', 'gmean', 'median', 'mode', 'std', 'cv', 'gstd', 'gcv', 'iqr', 'rcv')
-ALPHABETS = {'pos': (1, 2, 3), 'zero': (0, 7, 255), 'frac': (0.5, 2.25, 1000.125)}
+ALPHABETS = {'pos': (1, 2, 3), 'zero': (0, 7, 255), 'frac': (0.5, 2.25, 1000.125), 'neg': (-3, 1, 2)}
 
 
 def ref_column(col):
@@ -102,7 +102,7 @@ def channel_forms(D, named):
 def cases(tier, seed):
     maxn = 3 if tier == 'quick' else 4
     conts = CONTAINERS_Q if tier == 'quick' else CONTAINERS_T
-    for alpha in ('pos', 'zero', 'frac'):
+    for alpha in ('pos', 'zero', 'frac', 'neg'):
         for D in (1, 2):
             for N in range(1, maxn + 1):
                 if alpha != 'pos' and N == 4 and D == 2:
@@ -135,6 +135,10 @@ def make_container(kind, M, alpha):
     N, D = len(M), len(M[0])
     isfrac = alpha == 'frac'
     k, sub = kind.split(':')
+    if alpha == 'neg':
+        # negative values (compensated data): signed / floating-point containers only
+        if not ((k == 'arr' and sub in ('i8', 'f4', 'f8')) or (k == 'fcs' and sub in ('F', 'D'))):
+            return None
     if k == 'arr':
         dt = np.dtype(sub)
         if isfrac and dt.kind != 'f':
@@ -240,12 +244,18 @@ def run_case(c):
                     if all(e is None for e in exp):
                         continue
                     try:
+                        form_repr = repr(form)
                         with warnings.catch_warnings():
                             warnings.simplefilter('ignore')
                             if form is None:
                                 v = getattr(FlowCal.stats, st)(obj)
                             else:
                                 v = getattr(FlowCal.stats, st)(obj, form)
+                        if repr(form) != form_repr:
+                            res.violation('%s:%s:channel-argument-changed' % (st, kind), 'stats.%s(%s, channels=%s) changed the caller\'s channel list to %r' % (
+                                st, kind, form_repr, form), one)
+                            form = eval(form_repr)
+                            continue
                     except Exception as e:
                         res.violation('%s:%s:%s:raises:%s' % (st, kind, _fk(form), type(e).__name__),
                                       'stats.%s(%s, channels=%r) raised %s: %s for events %s' % (
